@@ -124,18 +124,27 @@ PROPS = {
         technique="bounded run-time stand-in (exhaustive small strings + grammar generation) - no contract discharged for this module yet",
     ),
     "C18": dict(
-        level="exploration",
-        contracts=[],
+        level="other",
+        contracts=["contracts.invreader"],
         harness=True,
         explanation=(
-            "BOUNDED ONLY so far: load() against sphinx.util.inventory.InventoryFile (8.2.3) on the same generated bytes "
+            "PROVED for all byte streams and ALL read schedules (no bound): the whole InventoryFileReader is under contract "
+            "over the abstract view View = buffer ++ unread bytes of the stream - read_buffer keeps the view and makes "
+            "progress; readline returns the decoded view up to its first newline and leaves the rest (recursion terminates: "
+            "variant len(rest) + [not eof]); readlines yields only non-empty lines and terminates; read_compressed_chunks "
+            "feeds every byte of the view to the decompressor exactly once, in order (the yielded chunks concatenate to "
+            "Inflate(view)); read_compressed_lines yields exactly Lines(Inflate(view)), the newline-terminated lines of the "
+            "decompressed data.  No contract mentions how read() split the data, so independence from stream chunking is a "
+            "consequence - relative to the ASSUMED contracts of IO.read (a prefix of the unread bytes, empty iff none remain) "
+            "and of zlib's streaming decompressor.  _load_v1/_load_v2 (regex per line, nested dict building) are not under "
+            "contract.  BOUNDED: load() against sphinx.util.inventory.InventoryFile (8.2.3) on the same generated bytes "
             "(v1 and v2, names with spaces and non-ASCII, '$' locations, py:module duplicates, malformed lines) and "
             "independence of the result from the read schedule (all single split points for small files, random and "
             "byte-wise schedules otherwise)."
         ),
         assumptions=["zlib streaming decompression = one-shot decompression (stdlib)"],
         trusted_base=["Sphinx 8.2.3 inventory loader (oracle)"],
-        technique="bounded differential stand-in against Sphinx's loader + enumeration of read schedules - no contract discharged for this module yet",
+        technique="contract-based deductive verification (ast -> VCs -> z3/cvc5) of InventoryFileReader; bounded differential stand-in against Sphinx's loader for the per-entry rules",
     ),
     "C01": dict(
         level="other",
@@ -200,11 +209,14 @@ PROPS = {
         trusted_base=["docutils traverse/findall returns all descendants of the class; docutils directives honour the shared settings"],
     ),
     "C08": dict(
-        level="exploration",
-        contracts=[],
+        level="other",
+        contracts=["contracts.directives"],
         harness=True,
         explanation=(
-            "BOUNDED ONLY so far: parse_directive_text against a line-level reference model taken from the statement "
+            "PROVED (all argument texts and declarations): parse_directive_arguments returns between `required` and "
+            "`required+optional` arguments or raises MarkupError; with no surplus the words themselves, with surplus only "
+            "when final_argument_whitespace is declared, folded into the last argument (str.split(None, k) modelled by its "
+            "item count).  BOUNDED for the rest: parse_directive_text against a line-level reference model taken from the statement "
             "(body = the content lines after the option block minus one optional leading blank line; offset = index of the "
             "first body line) for every content of up to 3/4 lines over an option/blank/text/delimiter vocabulary x 5 "
             "directive classes x first line; interchangeability of the two option styles, conversion by the directive's "
@@ -213,7 +225,7 @@ PROPS = {
         ),
         assumptions=[],
         trusted_base=["docutils 0.21.2 directive classes and option converters (the 'programs')"],
-        technique="bounded run-time stand-in (exhaustive small contents x directive classes) - no contract discharged for this module yet",
+        technique="contract-based deductive verification of parse_directive_arguments; bounded run-time stand-in (exhaustive small contents x directive classes) for the partition/option clauses",
     ),
     "C13": dict(
         level="other",
